@@ -1,5 +1,7 @@
 import FranzVerif.Model.Consumer
 import FranzVerif.Proof.Consumer
+import FranzVerif.Proof.ConsumerInv
+import FranzVerif.Proof.ConsumerFacts
 /-! C05 — read_committed never exposes aborted or open transactions. Theorems over ALL accepted
 histories of `Model.Consumer` with `c.committed = true`. -/
 namespace Props.C05
@@ -10,7 +12,14 @@ theorem no_aborted_record_returned (c : Cfg) (h : List Ev) (s : St) (hacc : run 
     (hc : c.committed = true) (part off : Nat) (id : Id) (txn : Nat)
     (hr : (part, off, id, false) ∈ returnedOf h) (hp : (id, part, off, txn) ∈ producedOf h) (hx : txn ≠ 0) :
     (txn, false) ∉ decisionsOf h := by
-  sorry
+  obtain ⟨s₁, h1, hchk⟩ := run_snoc hacc
+  have hi := inv_of_run h1
+  have hq := quiesce_check hchk
+  intro hd
+  obtain ⟨n, hn⟩ := hi.mem_ret hr
+  obtain ⟨m, hm⟩ := hi.mem_decided hd
+  have := hq.noAbort hc _ hn rfl txn (hi.txnOf hp) hx _ hm rfl
+  simp at this
 
 /-- No record of a still-open transaction is returned: a returned transactional record was returned
 only after its transaction's commit had been decided. -/
@@ -19,12 +28,26 @@ theorem no_open_transaction_record_returned (c : Cfg) (h₁ h₂ : List Ev) (s :
     (hc : c.committed = true)
     (hp : (id, part, off, txn) ∈ producedOf (h₁ ++ Ev.returned part off id false :: h₂)) (hx : txn ≠ 0) :
     (txn, true) ∈ decisionsOf h₁ := by
-  sorry
+  obtain ⟨sq, hrun, hchk⟩ := run_snoc hacc
+  have hiq := inv_of_run hrun
+  have hq := quiesce_check hchk
+  obtain ⟨s₁, h1, _, h2⟩ := run_split hrun
+  have hi := inv_of_run h1
+  have hmono := Mono.run h2
+  -- the monitor's entry for this returned record carries the number of records returned before it
+  have hmem : (part, off, id, false, s₁.nret) ∈ sq.ret := hmono.ret _ (by simp [Model.Consumer.apply])
+  obtain ⟨d, hd, d1, d2, d3⟩ := hq.noOpen hc _ hmem rfl txn (hiq.txnOf hp) hx
+  -- a decision logged after the record was returned has a larger index
+  rcases hmono.decided d hd with hd' | hlt
+  · have := hi.decided_mem (show d ∈ s₁.decided from hd')
+    rwa [d1, d2] at this
+  · simp only [Model.Consumer.apply] at hlt d3
+    omega
 
 /-- A control record is never returned unless KeepControlRecords is set. -/
 theorem no_control_record_unless_kept (c : Cfg) (h : List Ev) (s : St) (hacc : run c {} h = some s) (hk : c.keepCtl = false) :
     ∀ r ∈ returnedOf h, r.2.2.2 = false := by
-  sorry
+  exact (inv_of_run hacc).ctl hk
 
 /-- Completeness: at a quiescent point of a complete scenario every record of every committed
 transaction and every non-transactional record (at or after the start position) has been returned. -/
@@ -33,6 +56,63 @@ theorem every_committed_record_returned (c : Cfg) (h : List Ev) (s : St) (hacc :
     (id : Id) (part off txn : Nat) (hp : (id, part, off, txn) ∈ producedOf h) (hoff : c.start ≤ off)
     (hcommitted : txn = 0 ∨ (txn, true) ∈ decisionsOf h) :
     ∃ ctl, (part, off, id, ctl) ∈ returnedOf h := by
-  sorry
+  have _ := hc
+  obtain ⟨s₁, h1, hchk⟩ := run_snoc hacc
+  have hi := inv_of_run h1
+  have hq := quiesce_check hchk
+  have hm : (id, part, off, txn) ∈ s₁.prod := by rw [hi.prod]; exact List.mem_reverse.2 hp
+  have hel : c.committed = false ∨ txn = 0 ∨ ∃ d ∈ s₁.decided, d.1 = txn ∧ d.2.1 = true := by
+    rcases hcommitted with h0 | hd
+    · exact Or.inr (Or.inl h0)
+    · obtain ⟨n, hn⟩ := hi.mem_decided hd
+      exact Or.inr (Or.inr ⟨_, hn, rfl, rfl⟩)
+  obtain ⟨r, hr, r1, r2, r3⟩ := hq.complete (by rw [hi.incomplete]; exact hcomplete) _ hm hoff hel
+  refine ⟨r.2.2.2.1, ?_⟩
+  have := hi.ret_mem hr
+  simpa only [retKey, r1, r2, r3] using this
+
+/-- Non-vacuity: an accepted read_committed history ending at a quiescent point. Partition 0 holds a
+non-transactional record (id 1, offset 0), a record of transaction 7 (id 2, offset 1; commit marker at
+offset 2), a record of transaction 8 (id 3, offset 3; abort marker at offset 4) and another
+non-transactional record (id 4, offset 5). The first poll runs while transaction 7 is still open and
+returns only record 1; record 2 is returned only after `endDecided 7 true`; record 3 of the aborted
+transaction is never returned; hooks pair up, the gauge is 0. -/
+example : accepts { committed := true, keepCtl := false, start := 0 }
+    [.produced 1 0 0 0, .produced 2 0 1 7,
+     .pollStart, .hookBuf 0 0, .returned 0 0 1 false, .hookUnbuf 0 0 true, .pollEnd,
+     .endDecided 7 true, .endDone 7 true true,
+     .produced 3 0 3 8, .endDecided 8 false, .endDone 8 false true,
+     .produced 4 0 5 0,
+     .pollStart, .hookBuf 0 1, .hookBuf 0 5, .returned 0 1 2 false, .hookUnbuf 0 1 true,
+     .returned 0 5 4 false, .hookUnbuf 0 5 true, .pollEnd,
+     .gauge 0, .quiesce] = true := by decide
+
+/-- The same scenario, but the record of the aborted transaction 8 is returned: refused. -/
+example : accepts { committed := true, keepCtl := false, start := 0 }
+    [.produced 1 0 0 0, .produced 2 0 1 7,
+     .pollStart, .hookBuf 0 0, .returned 0 0 1 false, .hookUnbuf 0 0 true, .pollEnd,
+     .endDecided 7 true, .endDone 7 true true,
+     .produced 3 0 3 8, .endDecided 8 false, .endDone 8 false true,
+     .produced 4 0 5 0,
+     .pollStart, .hookBuf 0 1, .hookBuf 0 3, .hookBuf 0 5, .returned 0 1 2 false, .hookUnbuf 0 1 true,
+     .returned 0 3 3 false, .hookUnbuf 0 3 true,
+     .returned 0 5 4 false, .hookUnbuf 0 5 true, .pollEnd,
+     .gauge 0, .quiesce] = false := by decide
+
+/-- A record of transaction 7 returned while the transaction is still open (its commit is decided only
+afterwards): refused. -/
+example : accepts { committed := true, keepCtl := false, start := 0 }
+    [.produced 2 0 1 7,
+     .pollStart, .returned 0 1 2 false, .pollEnd,
+     .endDecided 7 true, .endDone 7 true true,
+     .gauge 0, .quiesce] = false := by decide
+
+/-- A committed record never returned: refused; a control record returned without KeepControlRecords: refused. -/
+example : accepts { committed := true, keepCtl := false, start := 0 }
+    [.produced 2 0 1 7, .endDecided 7 true, .endDone 7 true true,
+     .pollStart, .pollEnd, .gauge 0, .quiesce] = false := by decide
+example : accepts { committed := true, keepCtl := false, start := 0 }
+    [.produced 2 0 1 7, .endDecided 7 true, .endDone 7 true true,
+     .pollStart, .returned 0 1 2 false, .returned 0 2 0 true, .pollEnd, .gauge 0, .quiesce] = false := by decide
 
 end Props.C05
